@@ -334,9 +334,12 @@ func genReOp(t *rapid.T) ReOp {
 	op := ReOp{
 		Level: rapid.IntRange(0, 3).Draw(t, "level"),
 		Msg:   rapid.IntRange(-1, 6).Draw(t, "msg"),
-		Kind:  rapid.SampledFrom([]string{"swap", "rotate", "reverse", "unknown", "unknown", "unknown", "dup"}).Draw(t, "kind"),
+		Kind:  rapid.SampledFrom([]string{"swap", "rotate", "reverse", "unknown", "unknown", "unknown", "dup", "split"}).Draw(t, "kind"),
 		I:     rapid.IntRange(0, 8).Draw(t, "i"),
 		J:     rapid.IntRange(0, 8).Draw(t, "j"),
+	}
+	if op.Kind == "split" {
+		op.Level = model.LevelSnapshot
 	}
 	if op.Kind == "unknown" {
 		// unknown field numbers: anything outside the schema of that level
@@ -414,6 +417,24 @@ func applyReOps(tree *[]model.Item, ops []ReOp) {
 					pos = op.I % (n + 1)
 				}
 				items = append(items[:pos:pos], append([]model.Item{it}, items[pos:]...)...)
+			case "split":
+				// the (non-repeated, embedded) meta message written in two occurrences, each carrying
+				// part of the fields: every protobuf parser merges them (concatenated messages, or a
+				// writer that emits part of the metadata after the DBIs)
+				if op.Level == model.LevelSnapshot {
+					for i := range items {
+						if items[i].Field == model.SnapMeta && items[i].IsSub && len(items[i].Sub) > 0 {
+							sub := items[i].Sub
+							k := op.I % (len(sub) + 1)
+							second := items[i]
+							second.Sub = append([]model.Item{}, sub[k:]...)
+							items[i].Sub = append([]model.Item{}, sub[:k]...)
+							pos := i + 1 + op.J%(len(items)-i)
+							items = append(items[:pos:pos], append([]model.Item{second}, items[pos:]...)...)
+							break
+						}
+					}
+				}
 			case "dup":
 				// repeat a scalar (non-repeated) field occurrence earlier in the message with a
 				// different payload: the last occurrence must win
